@@ -28,6 +28,7 @@ Further reading on DAG circuit representation:
 https://qiskit.org/documentation/stubs/qiskit.converters.circuit_to_dag.html
 """
 
+import copy
 import functools
 import re
 import string
@@ -1175,6 +1176,8 @@ class CircuitDAG(CircuitBase):
         seq = self._slim_seq()
         noisy_ops = []
         for op in seq:
+            # work on a copy: the operation objects of this circuit must keep their own noise
+            op = copy.deepcopy(op)
             is_controlled = False
             if isinstance(op, ops.OneQubitGateWrapper):
                 op_type_seq = [type(gate) for gate in op.unwrap()]
